@@ -332,7 +332,11 @@ CLAIMS = {
     'C20': dict(
         text='Lean 4 theorems: (codec) b64_roundtrip — decode(encode(bytes)) = bytes for EVERY byte string, chunk '
              'boundaries 57/76 crossed by proof — and codec_roundtrip under the zlib/json round-trip laws, '
-             'gen_tree_constants (chunk sizes and translation tables extracted from TreeTag.py); (state) expand_adds, '
+             'gen_tree_constants (chunk sizes and translation tables extracted from TreeTag.py); encode_str, encode_seq '
+             'and decode_seq are TRANSLATED from /repo on every run (harness/trans_treecodec.py -> GenTree.lean) and proved '
+             'equal to the model: gen_encode_str_is_model, gen_encode_seq_is_model, gen_decode_seq_is_model, hence '
+             'gen_codec_roundtrip (what the translated encode_seq writes the translated decode_seq reads back); '
+             '(state) expand_adds, '
              'collapse_forgets_descendants, wf_applyDiff, rows_spec (rendered rows = depth-first spec, one link per '
              'parent encoding its own path, collapse iff expanded), history_invariant (refinement of the nested-list '
              'state to the set-of-paths spec for every valid click history), init_state; correspondence against the '
@@ -344,6 +348,8 @@ CLAIMS = {
         technique='Lean 4 proof (arithmetic + induction for the codec; refinement to a set-of-paths spec for the state) '
                   '+ correspondence; the state model applyDiff is proved equal to TreeTag.apply_diff translated from the '
                   'source statement by statement on every run (gen_apply_diff_is_model, gen_apply_diff_is_click)',
+                  '+ correspondence; the codec functions regenerated from the source on every run '
+                  '(statement-by-statement translator, equality with the hand-written model proved)',
         ref='DESIGN.md §5 C20'),
     'C06': dict(
         text='Lean 4 theorems about the parser model (hand-compiled scanners, tokeniser, attribute grammar, tag roles, '
